@@ -368,12 +368,6 @@ func vfC08Class(im vfC08Image) string {
 	}
 }
 
-func vfMaxInt(a, b int) int {
-	if a > b {
-		return a
-	}
-	return b
-}
 
 // vfC08Match: the recovered state must be the state of a whole-record prefix
 // that ends at or before the cut.
